@@ -212,12 +212,12 @@ func Items() []Item {
 		{ID: "cn", Core: true, Why: "6 CNAME", Lines: []Line{CNAME("c.example.com", "www.example.com", "300", "")}},
 		{ID: "wild", Core: true, Why: "7 wildcard under w", Lines: []Line{A("*.w.example.com", "192.0.2.10", "300", "", "")}},
 		{ID: "wildaa", Core: true, Why: "8 located wildcard", Lines: []Line{A("*.w.example.com", "192.0.2.11", "300", "aa", "")}},
-		{ID: "wildbb", Why: "8' wildcard of the other location (visible through the closer map of item 30)", Lines: []Line{A("*.w.example.com", "192.0.2.14", "300", "bb", "")}},
+		{ID: "wildbb", Core: true, Why: "8' wildcard of the other location (visible through the closer map of item 30)", Lines: []Line{A("*.w.example.com", "192.0.2.14", "300", "bb", "")}},
 		{ID: "xw", Core: true, Why: "9 own record beats the wildcard", Lines: []Line{A("x.w.example.com", "192.0.2.12", "300", "", "")}},
 		{ID: "wildapex", Core: true, Why: "10 wildcard at the zone cut; must not reach into sub. or deleg.", Lines: []Line{TXT("*.example.com", "wild", "300", "")}},
 		{ID: "ab", Why: "11 empty non-terminal b", Lines: []Line{A("a.b.example.com", "192.0.2.20", "300", "", "")}},
 		{ID: "sub", Core: true, Why: "12 nested authoritative zone", Lines: []Line{Dot("sub.example.com", "192.0.2.54", "a", "3600", "")}},
-		{ID: "xsub", Why: "13 data in (or, without 12, at the place of) the nested zone", Lines: []Line{A("x.sub.example.com", "192.0.2.30", "300", "", "")}},
+		{ID: "xsub", Core: true, Why: "13 data in (or, without 12, at the place of) the nested zone", Lines: []Line{A("x.sub.example.com", "192.0.2.30", "300", "", "")}},
 		{ID: "wildsub", Why: "14 wildcard of the nested zone", Lines: []Line{A("*.sub.example.com", "192.0.2.31", "300", "", "")}},
 		{ID: "deleg", Core: true, Why: "15 delegation with in-bailiwick glue", Lines: []Line{NS("deleg.example.com", "192.0.2.55", "ns.deleg.example.com", "3600", "")}},
 		{ID: "delegaa", Core: true, Why: "16 located NS, out-of-zone target", Lines: []Line{NS("deleg.example.com", "", "ns2.other.org", "3600", "aa")}},
@@ -249,8 +249,10 @@ func Items() []Item {
 		{ID: "aplusb", Why: "32 owner with a non-wild-safe label", Lines: []Line{A("a+b.w.example.com", "192.0.2.13", "300", "", "")}},
 		{ID: "no_mwild", Core: true, Why: "33 wildcard map removed: names below the apex have no map", Remove: []string{"M*.example.com,m1"}},
 		{ID: "no_mexact", Core: true, Why: "33 exact map removed: wildcard map at the queried name without exact map", Remove: []string{"Mexample.com,m1"}},
+		{ID: "no_m1nets", Core: true, Why: "C03 surrounding: a map that names select but that holds no subnet at all (its lookups must not stray into a neighbouring map)",
+			Remove: []string{"%aa,10.0.0.0/8,m1", "%bb,192.168.0.0/16,m1"}},
 		{ID: "d6m1", Core: true, Why: "34 lone IPv6 default route in the applicable map", Lines: []Line{Net("cc", "::/0", "m1")}, MayLocate: everyClient("cc")},
-		{ID: "d4m1", Why: "34 IPv4 default route in the applicable map", Lines: []Line{Net("cc", "0.0.0.0/0", "m1")}, MayLocate: everyClient("cc")},
+		{ID: "d4m1", Core: true, Why: "34 IPv4 default route in the applicable map", Lines: []Line{Net("cc", "0.0.0.0/0", "m1")}, MayLocate: everyClient("cc")},
 		{ID: "d6c1", Core: true, Why: "34 IPv6 default route in a map sorting before the applicable one (the client-subnet map when 29 is present)", Lines: []Line{Net("cc", "::/0", "c1")}, MayLocate: everyClient("cc")},
 		{ID: "d4c1", Why: "34 IPv4 default route in c1", Lines: []Line{Net("cc", "0.0.0.0/0", "c1")}, MayLocate: everyClient("cc")},
 		{ID: "d6z1", Why: "34 IPv6 default route in a map sorting after the applicable one", Lines: []Line{Net("cc", "::/0", "z1")}, MayLocate: everyClient("cc")},
